@@ -12,10 +12,12 @@ cd ../build/ml
 if [ ! -f model_driver ] || [ -n "$(find ../../coq -maxdepth 2 -name '*.vo' -newer model_driver -print -quit)" ] || [ ../../ocaml/driver.ml -nt model_driver ] || [ ../../coq/Extract.v -nt model_driver ]; then
   cp ../../coq/Extract.v . && coqc -Q $V/coq LC Extract.v > extract.log 2>&1 || { cat extract.log; exit 1; }
   cp ../../ocaml/driver.ml .
-  ocamlfind ocamlopt -w -a -O2 model.mli model.ml driver.ml -o model_driver > ocaml.log 2>&1 || { cat ocaml.log; exit 1; }
+  ocamlfind ocamlopt -w -a -O2 model.mli model.ml driver.ml -o model_driver.new > ocaml.log 2>&1 || { cat ocaml.log; exit 1; }
+  mv -f model_driver.new model_driver     # atomic: a check running concurrently keeps the old binary
 fi
 if [ ! -f mem_driver ] || [ ../../coq/MemDefs.vo -nt mem_driver ] || [ ../../coq/gen/MemOrders.vo -nt mem_driver ] || [ ../../ocaml/mem_driver.ml -nt mem_driver ] || [ ../../coq/ExtractMem.v -nt mem_driver ]; then
   cp ../../coq/ExtractMem.v . && coqc -Q $V/coq LC ExtractMem.v > extractmem.log 2>&1 || { cat extractmem.log; exit 1; }
   cp ../../ocaml/mem_driver.ml .
-  ocamlfind ocamlopt -w -a -O2 memmodel.mli memmodel.ml mem_driver.ml -o mem_driver > ocamlmem.log 2>&1 || { cat ocamlmem.log; exit 1; }
+  ocamlfind ocamlopt -w -a -O2 memmodel.mli memmodel.ml mem_driver.ml -o mem_driver.new > ocamlmem.log 2>&1 || { cat ocamlmem.log; exit 1; }
+  mv -f mem_driver.new mem_driver
 fi
